@@ -53,9 +53,19 @@ CHECKS = [
         "to fire max_data_age after the last reset; datetime.now() modelled as arbitrary non-decreasing instants; library enum "
         "member lists declared in the sidecar and probed natively on every run",
         "contract-based deductive verification of atomic handlers (z3), class-invariant style", "DESIGN.md 3 (C16)"),
+    chk("C07", "proof",
+        "Deductive proof (integer microsecond arithmetic) that the first window end is after creation, at most two periods later and on "
+        "the align_to grid, and - by a loop invariant over all ticks of Resampler.resample - that _window_end advances by exactly one "
+        "period per tick and every series is asked exactly once per tick for exactly that window end, independent of the clock, "
+        "of timer lateness and of failing sinks.",
+        "Timer(TriggerAllMissed) modelled as an arbitrary stream of ticks (one per elapsed period: library behaviour, assumed); series are "
+        "scripted collaborators recording the timestamps requested; up to two series (structural bound), unbounded ticks; __init__'s "
+        "timer alignment hack and add/remove_timeseries not under contract; a bounded native run of the same contract on the real "
+        "event loop is reported separately",
+        "contract-based deductive verification with loop invariant over an async tick stream (z3, LIA/NIA)", "DESIGN.md 3 (C07)"),
 ]
 
 _PENDING = "check under construction in this session (contracts not yet written); will be claimed once its obligations discharge"
 NOT_APPLICABLE = [
     {"property_id": "C12", "reason": "formula generators are graph algorithms over networkx.DiGraph (recursive dfs, successor-set classification); no contract within reach of the VC generator expresses 'the generated formula balances for every valid graph' (DESIGN.md 4)"},
-] + [{"property_id": f"C{n:02d}", "reason": _PENDING} for n in (1, 2, 5, 6, 7, 8, 9, 10, 14, 15, 17, 18, 19, 20)]
+] + [{"property_id": f"C{n:02d}", "reason": _PENDING} for n in (1, 2, 5, 6, 8, 9, 10, 14, 15, 17, 18, 19, 20)]
